@@ -425,9 +425,7 @@ func (u *Unit) store(st *State, fr *Frame, p Value, v Value, t types.Type, in ss
 			return false
 		}
 		if !p.Obj.fresh && !u.modRecv[p.Obj] && u.specMode == 0 {
-			if !u.require(st, fr, False, "frame", in) {
-				return false
-			}
+			u.frameViolation(st, fr, in) // reported under C18; the path continues for the other properties
 		}
 		if u.captured[p.Obj] {
 			u.unsupported("store to an object after it was captured by value into a region")
@@ -440,9 +438,7 @@ func (u *Unit) store(st *State, fr *Frame, p Value, v Value, t types.Type, in ss
 			return false
 		}
 		if !u.writable(p.R) && u.specMode == 0 {
-			if !u.require(st, fr, False, "frame", in) {
-				return false
-			}
+			u.frameViolation(st, fr, in)
 		}
 		if p.R.concrete {
 			if p.Idx.C == nil {
@@ -462,11 +458,19 @@ func (u *Unit) store(st *State, fr *Frame, p Value, v Value, t types.Type, in ss
 		}
 		return u.writeElem(st, p.R, p.Idx, p.Path, t, v)
 	case GlobalPtr:
-		u.require(st, fr, False, "frame", in)
+		u.frameViolation(st, fr, in)
+		u.unsupported("store to package-level variable %s", p.G.Name())
 		return false
 	}
 	u.unsupported("store to %T", p)
 	return false
+}
+
+// frameViolation records a write outside the function's modifies set (an obligation that fails whenever the
+// path is feasible) without ending the path.
+func (u *Unit) frameViolation(st *State, fr *Frame, in ssa.Instruction) {
+	name := fmt.Sprintf("%s#frame:%s", fnKey(u.fn), u.where(fr, in))
+	u.oblige(st, name, "frame", []string{"C18"}, False, "")
 }
 
 func (u *Unit) writable(r *Region) bool {
